@@ -399,6 +399,24 @@ class Exec:
             self.refs[name] = ps[0]
             self.stale("packed-refs", "cg", "bitmap")
             self.labels.add("ref-moved-back")
+        elif kind == "retag":
+            # a ref that packed-refs lists without a peeled line (lightweight tag) is re-pointed, as a loose ref, at an
+            # annotated tag object: what packed-refs knows about the name ("nothing to peel") is about the old value
+            light = sorted(n for n, v in self.refs.items() if n.startswith(b"refs/tags/") and self.h.objs[v][0] != b"tag")
+            annot = sorted({v for v in self.refs.values() if self.h.objs[v][0] == b"tag"})
+            if not light or not annot:
+                self.skipped += 1
+                return
+            name, tgt = light[o[1] % len(light)], annot[o[1] % len(annot)]
+            if len(o) > 2 and o[2] == "git":
+                if not self.git(["update-ref", name.decode(), tgt.decode()]):
+                    return
+                self.labels.add("ref-changed-by-git")
+            else:
+                self.repo.refs[name] = tgt
+            self.refs[name] = tgt
+            self.stale("packed-refs")
+            self.labels.add("lightweight-tag-repointed-at-annotated-tag")
         elif kind == "cg":
             w = o[1]
             if not self.refs:
@@ -1281,6 +1299,8 @@ FIXED = [
     {"spec": _OCT, "script": [("advance", 4), ("pack_loose",), ("advance", 4), ("pack_loose",), ("bitmap",)]},
     {"spec": _OCT, "script": [("advance", 5), ("git_repack", True), ("fetchpack", 2), ("reopen",)]},
     {"spec": _OCT, "script": [("advance", 6), ("pack_refs", "dulwich"), ("advance", 1)]},
+    {"spec": _OCT, "script": [("advance", 6), ("pack_refs", "git"), ("query",), ("retag", 0, "dulwich"), ("query",)]},
+    {"spec": _OCT, "script": [("advance", 6), ("pack_refs", "dulwich"), ("retag", 0, "git"), ("reopen",)]},
     {"spec": _OCT, "script": [("advance", 6), ("cg", "dulwich-tips"), ("advance", 2), ("gc",)]},
     {"spec": dict(_OCT, idxver=1), "script": [("advance", 8), ("pack_loose",), ("midx", "dulwich"), ("cg", "git-bloom")]},
     {"spec": dict(_OCT, idxver=3), "script": [("advance", 4), ("pack_loose",), ("fetchpack", 3), ("midx", "dulwich"), ("bitmap",)]},
